@@ -519,10 +519,15 @@ class Machine:
         if not path:
             cell.v = val
             return
+        if cell.v is None and path[0].__class__ is int:
+            cell.v = Tup()          # aggregate initialised field by field
         v = cell.v
         variant = None
         for p in path[:-1]:
             if p.__class__ is int:
+                if isinstance(v, (Tup, list)) and (len(v) <= p or v[p] is None):
+                    while len(v) <= p: v.append(None)
+                    v[p] = Tup()
                 if isinstance(v, Adt): v = v.fields[p]
                 elif isinstance(v, Coroutine):
                     v = v.saved[(variant, p)] if variant is not None else v.up[p]
